@@ -74,8 +74,15 @@ def load_metadata(username="master"):
                 'description': data['description']
             }
 
-    # Immediately check for topological order.
-    check_topological_sort()
+    # Immediately check for topological order. If there is a cycle (or an
+    # import of a theory that does not exist), do not keep the metadata, so
+    # that every later load reports the problem again.
+    try:
+        check_topological_sort(username)
+    except Exception:
+        del theory_cache[username]
+        del item_index[username]
+        raise
 
 def check_topological_sort(username="master"):
     """For the given user, check the import relations have no cycles."""
